@@ -4,3 +4,15 @@ package gb28181
 
 // VerifFeed hands one datagram to the session exactly as its UDP read loop does.
 func VerifFeed(s *PubSession, b []byte) { s.feedPacket(b) }
+
+// VerifFeedTcp hands one packet to the session exactly as its TCP read loop does: the packet is read into
+// a buffer the loop uses for every packet (runLoopTcp: buf.ReserveBytes), so the bytes of a packet are
+// overwritten by the next one.
+func VerifFeedTcp(s *PubSession, scratch *[]byte, b []byte) {
+	if cap(*scratch) < len(b) {
+		*scratch = make([]byte, len(b), 2*len(b)+1500)
+	}
+	x := (*scratch)[:len(b)]
+	copy(x, b)
+	s.feedPacket(x)
+}
